@@ -548,11 +548,11 @@ func (a *AddrManager) changePrivPassphrase(amBucket db.Bucket, oldPrivPass []byt
 	if err != nil {
 		return err
 	}
-	err = a.checkPassword(oldPrivPass)
+	// check password; do not leave the derived master key behind while locked
+	err = a.safelyCheckPassword(oldPrivPass)
 	if err != nil {
 		return err
 	}
-	//check password
 	var masterPrivKey snacl.SecretKey
 	defer masterPrivKey.Zero()
 	err = unmarshalMasterPrivKey(&masterPrivKey, oldPrivPass, privParams)
